@@ -314,6 +314,10 @@ def adjust_intervals(
     elif (t_min is None or t_max is None) and intervals.size == 0:
         raise ValueError("Supplied intervals are empty, can't append new" " intervals")
 
+    if labels is not None:
+        # never modify the caller's list (labels are inserted / appended below)
+        labels = list(labels)
+
     if t_min is not None:
         # Find the intervals that end at or after t_min
         first_idx = np.argwhere(intervals[:, 1] >= t_min)
@@ -388,6 +392,10 @@ def adjust_events(events, labels=None, t_min=0.0, t_max=None, label_prefix="__")
         Event times corrected to the given range.
 
     """
+    if labels is not None:
+        # never modify the caller's list (labels are inserted / appended below)
+        labels = list(labels)
+
     if t_min is not None:
         first_idx = np.argwhere(events >= t_min)
 
